@@ -504,7 +504,7 @@ pub fn run(rep: &mut Report, tier: &str, seed: u64, shard: (u32, u32)) {
         rep.extra.insert("lattice_sizes".into(), json!({"time": tl.len(), "duration": dl.len(), "log_interval": 256}));
     }
     // random part
-    let n_random: u64 = if tier == "thorough" { 3_000_000 } else { 100_000 };
+    let n_random: u64 = if tier == "thorough" { 3_000_000 } else { 300_000 };
     let budget = Budget::new(n_random, if tier == "thorough" { 240.0 } else { 20.0 });
     let mut i = 0u64;
     while budget.left(i) {
